@@ -16,7 +16,8 @@ E4  seeded random / PCT controlled schedules of scenarios on the REAL ThreadPool
     ImmediateInvoker: periodic steady / non-steady tasks, functions returning false, cancel, detach,
     destruction at any point, 1-2 tasks, 1-3 driver threads; validated by TLC the same way.
 E5  free-running real-time records (real clock, real scheduler thread) validated by TLC as records
-    (spec/timedtask/TimedRec.tla; R5).
+    (RecOK of spec/timedtask/TimedRecProps.tla, R5; appended to the trace file so that one TLC run judges
+    both; spec/timedtask/TimedRec.tla is the stand-alone validator for a record file).
 """
 import os
 import random
@@ -169,15 +170,18 @@ def run(ctx):
     else:
         cover_cfg, cover_scen = 'MC_cover_q.cfg', 'w=-1;t1=1.0.1.n.i.0;main:new,sched1,tick,del1,stop'
         model(ctx, cover_cfg, 'cover: 1 one-shot task, ImmediateInvoker, destroy at every point', taken, dump=dot)
-    model(ctx, 'MC_false1w.cfg', 'pool(1): period 0, x3, function returns false on call 1, destroy at every point', taken)
-    model(ctx, 'MC_cancel_q.cfg', 'ImmediateInvoker: steady x2 due at once (kick-off in schedule()), cancel + destroy', taken)
     if thorough:
+        model(ctx, 'MC_false1w.cfg', 'pool(1): period 0, x3, function returns false on call 1, destroy at every point', taken)
+        model(ctx, 'MC_cancel_q.cfg', 'ImmediateInvoker: steady x2 due at once (kick-off in schedule()), cancel + destroy', taken)
+        model(ctx, 'MC_detach_q.cfg', 'ImmediateInvoker: detach, handle destroyed, runs continue, scheduler stopped', taken)
         model(ctx, 'MC_false2w.cfg', 'pool(2): period 0, x3, false on call 1 (concurrent wrappers)', taken, timeout=1500)
         model(ctx, 'MC_poolcancel.cfg', 'pool(1): steady x3, false on call 2, cancel, calls, destroy', taken)
         model(ctx, 'MC_pooldetach.cfg', 'pool(1): detach, handle destroyed, runs continue', taken)
         model(ctx, 'MC_two.cfg', 'two tasks (pool + ImmediateInvoker), two drivers + clock thread', taken, timeout=1800)
     else:
-        model(ctx, 'MC_detach_q.cfg', 'ImmediateInvoker: detach, handle destroyed, runs continue, scheduler stopped', taken)
+        # three configurations as three initial states of one TLC run (one JVM start)
+        model(ctx, 'MC_quick.cfg', 'pool(1): period 0, x3, false on call 1, destroy at every point | ImmediateInvoker: steady x2 '
+              'due at once, cancel + destroy | ImmediateInvoker: detach, handle destroyed, runs continue', taken)
     missing = [a for a in ALL_ACTIONS if a not in taken and a not in VARIANT_ONLY]
     if thorough and missing:
         raise ToolError('vacuous model runs: actions never taken in any configuration: %s' % missing)
@@ -223,27 +227,19 @@ def run(ctx):
         execs += tot.get('completed', 0)
         incomplete(ctx, tot, tr, 'random scenarios pct%d' % pct)
 
-    # E3 ---------------------------------------------------------------------------------------
-    allt = cat(traces, os.path.join(ctx.work, 'all.ndjson'))
-    ctx.validate(SPEC, 'TimedTaskTrace.tla', 'TimedTaskTrace.cfg', allt, WHAT, executions=execs,
-                 label='cover replay + random/PCT scenarios', timeout=1500)
-    ctx.sample_trace(traces[-1], 10, skip=30)
-
     # E5 ---------------------------------------------------------------------------------------
     rec = os.path.join(ctx.work, 'records.ndjson')
     tot, _ = ctx.driver(exe, ['--free', 60 if thorough else 14, '--seed', ctx.seed, '--out', rec], WHAT,
                         label='free-running real-time records')
-    res = ctx.tlc(SPEC, 'TimedRec.tla', 'TimedRec.cfg', workers=1, env={'TRACE': rec}, count=False,
-                  extra=['-noGenerateSpecTE'], label='real-time records')
     nrec = sum(1 for _ in open(rec))
     ctx.cov['timed_records_validated'] = nrec
-    if res.violation:
-        line = res.rejected_line or res.depth
-        lines = open(rec).read().splitlines()
-        path = ctx.save_replay('%s-TimedRec.txt' % ctx.prop, 'record %s of %s violates RecOK\n\n%s\n\n%s' %
-                               (line, rec, lines[line - 1] if line and line <= len(lines) else '', res.counterexample()[:3000]))
-        ctx.violation('records:TimedRec:%s' % res.violation, WHAT + ': free-running record violates the property', path)
     ctx.sample({'record': open(rec).readline().strip()})
+
+    # E3 (+ the records of E5, judged line by line by RecOK) ------------------------------------------
+    allt = cat(traces + [rec], os.path.join(ctx.work, 'all.ndjson'))
+    ctx.validate(SPEC, 'TimedTaskTrace.tla', 'TimedTaskTrace.cfg', allt, WHAT, executions=execs,
+                 label='cover replay + random/PCT scenarios + real-time records', timeout=1500)
+    ctx.sample_trace(traces[-1], 10, skip=30)
 
     ctx.assumptions += [
         'TLA+ interleaving semantics are sequentially consistent (the seq_cst orders the repair relies on are argued in '
